@@ -88,6 +88,10 @@ type CustomOp struct {
 	// CtxFn, when set, is what the registered operator runs at evaluation time (it sees the evaluation context);
 	// it must compute the same function as Fn
 	CtxFn func(ctx interface{}, args []interface{}) (interface{}, error)
+	// MutatesArgs: the registered operator reorders the argument slice it is handed (it owns its arguments for the
+	// duration of the call); ReturnsArgs: its result is that very slice (a tuple constructor that keeps its arguments)
+	MutatesArgs bool
+	ReturnsArgs bool
 }
 
 // RefCov is what the reference evaluation observed about its own control flow.
@@ -237,19 +241,20 @@ func (env *Env) apply(name string, args []interface{}, optional bool) (interface
 		res interface{}
 		err error
 	)
+	atCall := append([]interface{}{}, args...) // the arguments as they are at call time (an operator may reorder its own copy)
 	if f, ok := env.Custom[name]; ok {
-		res, err = f.Fn(args)
+		res, err = f.Fn(append([]interface{}{}, args...))
 		r := "ERR"
 		if err == nil {
 			r = valText(res)
 		}
-		env.Trace = append(env.Trace, Eff{Name: name, Args: argsText(args), Res: r, Optional: optional})
+		env.Trace = append(env.Trace, Eff{Name: name, Args: argsText(atCall), Res: r, Optional: optional})
 	} else {
 		res, err = applyBuiltin(name, args)
 	}
 	env.countOp(name)
 	if env.RecordApps {
-		env.Apps = append(env.Apps, App{Name: name, Args: append([]interface{}{}, args...), Res: res, Failed: err != nil, Optional: optional})
+		env.Apps = append(env.Apps, App{Name: name, Args: atCall, Res: res, Failed: err != nil, Optional: optional})
 	}
 	return res, err
 }
@@ -413,7 +418,7 @@ func (env *Env) Kleene(n *Node) (interface{}, error) {
 		return refDNE, nil
 	}
 	if f, ok := env.Custom[n.Name]; ok {
-		return f.Fn(args)
+		return f.Fn(append([]interface{}{}, args...))
 	}
 	return applyBuiltin(n.Name, args)
 }
